@@ -650,9 +650,19 @@ def name_verdict(h, v):
     if clause == "LocKind":
         suffix = "LocKind:%s->%s" % (e, g)
     elif clause in ("Names", "Types", "Materials", "ChildOrder", "Grids", "GridOwner", "LocValue", "Temperatures", "SortKeys", "Serials"):
-        suffix = "%s:%s" % (clause, v.get("ty"))
+        suffix = "%s:%s" % (clause, coarse(v.get("ty", "")))
     return [(suffix, "%s: %s of %s %s: written %s, loaded %s (%d node(s))" % (
         call, clause, v.get("ty"), v.get("nm"), json.dumps(e)[:150], json.dumps(g)[:150], v["n"]))]
+
+
+def coarse(ty):
+    """class name -> level of the model (keeps violation keys few and stable)"""
+    if ty in ("Circle", "Hexagon", "Rectangle", "Square", "Helix", "DerivedShape", "RadialSegment", "Triangle", "UnshapedComponent"):
+        return "Component"
+    for k in ("Block", "Assembly", "Core", "Reactor"):
+        if ty.endswith(k):
+            return k
+    return "Composite" if ty in ("Composite", "VerifBox") else ty
 
 
 _FIELD = {"Types": "ty", "Names": "nm", "Serials": "sn", "ChildOrder": "kids", "LocKind": "lk", "LocValue": "loc", "GridOwner": "lg",
@@ -812,13 +822,13 @@ class GenericAdapter:
                 for clause, fld in (("Types", "ty"), ("Names", "nm"), ("ChildOrder", "kids"), ("LocKind", "lk"),
                                     ("GridOwner", "lg"), ("Materials", "mat"), ("Temperatures", "tmp")):
                     if e[fld] != g[fld]:
-                        suffix = "LocKind:%s->%s" % (e[fld], g[fld]) if clause == "LocKind" else "%s:%s" % (clause, e["ty"])
+                        suffix = "LocKind:%s->%s" % (e[fld], g[fld]) if clause == "LocKind" else "%s:%s" % (clause, coarse(e["ty"]))
                         out.append(("load:" + suffix, "generic tree: %s of %s: specification %s, loaded %s" % (
                             clause, e["nm"], json.dumps(e[fld]), json.dumps(g[fld]))))
                 if e["lk"] == g["lk"] and e["loc"] != g["loc"]:
-                    out.append(("load:LocValue:" + e["ty"], "generic tree: location of %s: specification %s, loaded %s" % (e["nm"], e["loc"], g["loc"])))
+                    out.append(("load:LocValue:" + coarse(e["ty"]), "generic tree: location of %s: specification %s, loaded %s" % (e["nm"], e["loc"], g["loc"])))
                 if (e["grid"]["raw"] == "") != (g["grid"]["raw"] == "") or e["grid"]["ax"] != g["grid"]["ax"]:
-                    out.append(("load:Grids:" + e["ty"], "generic tree: grid of %s: specification %s, loaded %s" % (e["nm"], e["grid"], g["grid"])))
+                    out.append(("load:Grids:" + coarse(e["ty"]), "generic tree: grid of %s: specification %s, loaded %s" % (e["nm"], e["grid"], g["grid"])))
             # grids: the loaded grid of a node must be (observationally) the grid the node had
             gobs = {}
             for nd, o in zip(t, objs):
@@ -827,7 +837,7 @@ class GenericAdapter:
                     gobs[nd["sn"]] = n1[0]["grid"]["obs"]
             for g in nodes:
                 if g["sn"] in gobs and g["grid"]["obs"] != gobs[g["sn"]]:
-                    out.append(("load:Grids:%s" % g["ty"], "generic tree: grid of %s changed: %s -> %s" % (g["nm"], gobs[g["sn"]], g["grid"]["obs"])))
+                    out.append(("load:Grids:%s" % coarse(g["ty"]), "generic tree: grid of %s changed: %s -> %s" % (g["nm"], gobs[g["sn"]], g["grid"]["obs"])))
             return out
         finally:
             db.h5db.close()
@@ -927,9 +937,14 @@ def run(rep, tier, seed):
         _tlc_verdict(rep, "exhaustive:Layout_mc%s.cfg" % sfx, res)
         if res.coverage.get("AddChild", (0, 0))[1] == 0 or res.distinct < 1000:
             raise tlc.MachineryError("vacuous: Layout_mc explored %d trees" % res.distinct)
-        res = tlc.run("DbState_mc", "DbState_mc%s.cfg" % sfx, MODDIR, want_prints=False, timeout=3000)
+        # quick: invariants without coverage counters (3x faster), actions' non-vacuity from a small separate run
+        res = tlc.run("DbState_mc", "DbState_mc%s.cfg" % sfx, MODDIR, want_prints=False, timeout=3000, coverage=thorough)
         _tlc_verdict(rep, "exhaustive:DbState_mc%s.cfg" % sfx, res)
-        never = [a for a in DB_ACTIONS if res.coverage.get(a, (0, 0))[1] == 0]
+        cov = res
+        if not thorough:
+            cov = tlc.run("DbState_mc", "DbState_cov.cfg", MODDIR, want_prints=False, timeout=3000)
+            _tlc_verdict(rep, "coverage:DbState_cov.cfg", cov)
+        never = [a for a in DB_ACTIONS if cov.coverage.get(a, (0, 0))[1] == 0]
         if never:
             raise tlc.MachineryError("vacuous: DbState actions never taken: %s" % never)
 
